@@ -449,7 +449,7 @@ def networkRange (bands : List Band) : E (Int × Int) :=
   | b :: bs => pure (bs.foldl (fun a x => if x.1 < a then x.1 else a) b.1, bs.foldl (fun a x => if x.2 > a then x.2 else a) b.2)
 
 /-- `reversed_oms`: the first OMS that runs between the same two ROADMs the other way -/
-def reversedOms (l : List (List String)) (i : Nat) : Option Nat :=
+def reversedOms {α : Type} [DecidableEq α] (l : List (List α)) (i : Nat) : Option Nat :=
   match l[i]? with
   | none => none
   | some e => l.findIdx? (fun o => decide (e.head? = o.getLast? ∧ e.getLast? = o.head?))
@@ -468,5 +468,81 @@ def buildOmsList (chains : List Chain) (netBands : List Band) (si : Option Band)
   let els := chains.map (·.els)
   pure (((chains.zip aligned).zipIdx).map (fun p =>
     ({ id := p.2, els := p.1.1.els, bm := p.1.2, reversed := reversedOms els p.2 } : OmsRec)))
+
+
+/-! ### C15: the graph walk of `build_oms_list` -/
+
+inductive NodeKind where
+  | roadm | trx | line
+  deriving DecidableEq, Repr
+
+/-- the network as `build_oms_list` sees it: nodes are numbered in `network.nodes()` order, `kind[i]` tells whether node
+    `i` is a Roadm, a Transceiver or a line element (Fiber, Edfa, Fused, …), `succ[i]` are its successors in
+    `network.edges([node])` order. uids are unique, so "same uid" is "same number". -/
+structure Net where
+  kind : List NodeKind
+  succ : List (List Nat)
+  deriving Repr
+
+def Net.size (g : Net) : Nat := g.kind.length
+/-- kind of a node (numbers outside the graph never occur; they count as Roadm so that a walk would stop) -/
+def Net.kindOf (g : Net) (i : Nat) : NodeKind := (g.kind[i]?).getD NodeKind.roadm
+def Net.succOf (g : Net) (i : Nat) : List Nat := (g.succ[i]?).getD []
+
+/-- the `while not isinstance(nd_out, Roadm)` loop: the elements added after the ingress node, ending with the egress
+    ROADM. `next(n[1] for n in network.edges([n_temp]) if n[1].uid != nd_in.uid)` is the first successor that is not the
+    node we came from (StopIteration when there is none). The fuel is the number of nodes ("hang": the Python loop does
+    not terminate on a ring of line elements). -/
+def walk (g : Net) : Nat → Nat → Nat → E (List Nat)
+  | 0, _, _ => throw "hang"
+  | fuel + 1, ndIn, ndOut =>
+    if g.kindOf ndOut = NodeKind.roadm then pure [ndOut]
+    else
+      match (g.succOf ndOut).find? (fun y => decide (y ≠ ndIn)) with
+      | none => throw "other:StopIteration"
+      | some nxt => do
+        let rest ← walk g fuel ndOut nxt
+        pure (ndOut :: rest)
+
+/-- is node `i` one of the `oms_vertices` contributed by the transceiver clause:
+    `isinstance(n, Transceiver) and not isinstance(next(network.successors(n)), Roadm)` -/
+def trxVertex (g : Net) (i : Nat) : E Bool :=
+  if g.kindOf i = NodeKind.trx then
+    match (g.succOf i).head? with
+    | none => throw "other:StopIteration"
+    | some h => pure (decide (g.kindOf h ≠ NodeKind.roadm))
+  else pure false
+
+/-- `oms_vertices`: the ROADMs, then the transceivers that are not next to a ROADM, each in node order -/
+def omsVertices (g : Net) : E (List Nat) := do
+  let t ← filterE (trxVertex g) (List.range g.size)
+  pure ((List.range g.size).filter (fun i => decide (g.kindOf i = NodeKind.roadm)) ++ t)
+
+/-- the (vertex, first hop) pairs from which an OMS is built, in construction order:
+    `for node in oms_vertices: for edge in network.edges([node]): if not isinstance(edge[1], Transceiver)` -/
+def omsStarts (g : Net) (vs : List Nat) : List (Nat × Nat) :=
+  vs.flatMap (fun v => ((g.succOf v).filter (fun x => decide (g.kindOf x ≠ NodeKind.trx))).map (fun x => (v, x)))
+
+/-- the `el_id_list` of the OMS that starts with the edge `st`: ingress node, line elements, egress ROADM -/
+def omsEls (g : Net) (st : Nat × Nat) : E (List Nat) := do
+  let w ← walk g g.size st.1 st.2
+  pure (st.1 :: w)
+
+/-- the element lists of all OMS, in `oms_id` order (`oms_id` = position in this list) -/
+def buildWalks (g : Net) : E (List (List Nat)) := do
+  let vs ← omsVertices g
+  mapE (omsEls g) (omsStarts g vs)
+
+/-- the elements that received `oms_id = i` / `oms = …` in the while loop of OMS `i`: all but the ingress node and the
+    egress ROADM -/
+def interior (els : List Nat) : List Nat := els.tail.dropLast
+
+/-- `element.oms_id` after `build_oms_list` (the last assignment wins) -/
+def omsIdOf (l : List (List Nat)) (node : Nat) : Option Nat :=
+  (l.zipIdx.filter (fun p => decide (node ∈ interior p.1))).getLast?.map (·.2)
+
+/-- `node.oms_list` after `build_oms_list`: the ids appended to the ingress node and to the egress ROADM of every OMS -/
+def omsListOf (l : List (List Nat)) (node : Nat) : List Nat :=
+  l.zipIdx.flatMap (fun p => (if p.1.head? = some node then [p.2] else []) ++ (if p.1.getLast? = some node then [p.2] else []))
 
 end Gnpy.Slots
